@@ -790,6 +790,11 @@ func addrSignatures(o addrObs) []string {
 		if o.Sub != "" && strings.HasSuffix(o.Path, "/") {
 			sig = append(sig, "package_path_ends_in_slash")
 		}
+		if o.Api == "make" {
+			if _, err := url.ParseQuery(o.Query); err != nil {
+				sig = append(sig, "make_accepts_unparsable_query")
+			}
+		}
 	}
 	return sig
 }
